@@ -132,7 +132,13 @@ def eval_kernel(case):
     near = np.abs(pi - pi1) <= 1e-4 * np.maximum(pi, pi1)
     pm_a = tnp.calc_medium_pressure_with_derivative_np(pi, pi1)
     pm_b = tnb.calc_medium_pressure_with_derivative_numba(pi, pi1)
-    cmp("medium_pressure", pm_a[:1], pm_b[:1], ["p_m"], flow_rows=False)
+    for nm, x, y in zip(["p_m"], pm_a[:1], pm_b[:1]):
+        # p^3 - p1^3 cancels for nearly equal end pressures; numpy and numba power functions differ in the last bit
+        x, y = x.copy(), y.copy()
+        x[near & (pi != pi1)] = 0
+        y[near & (pi != pi1)] = 0
+        if not _eq(x, y, rtol=1e-10):
+            f.append(Finding("kernel", "C07.kernel.medium_pressure.p_m", {"numpy": x, "numba": y, "p": pi, "p1": pi1}))
     for nm, x, y in zip(["der_p_m", "der_p_m1"], pm_a[1:], pm_b[1:]):
         x, y = x.copy(), y.copy()
         same = (pi == pi1)
@@ -217,6 +223,11 @@ def eval_e2e(case):
         nets.append(net)
         sts.append(r)
     f = []
+    if sts[0].status != sts[1].status and opts.get("friction_model", "nikuradse") != "nikuradse" and \
+            "crash" not in (sts[0].status, sts[1].status):
+        # Colebrook-White / Swamee-Jain are undefined for laminar flow; whether an iterate enters that region depends
+        # on round-off (see gen.hyd_case)
+        return Outcome(discard="verdict_mismatch_turbulent_friction_model")
     if sts[0].status != sts[1].status:
         sig = "C07.e2e.verdict"
         okn = nets[0] if sts[0].ok else (nets[1] if sts[1].ok else None)
@@ -231,8 +242,16 @@ def eval_e2e(case):
     if not sts[0].ok:
         return Outcome(discard=sts[0].status)
     diffs = compare_nets(nets[0], nets[1])
+    lift0 = False
+    for n_ in nets:
+        for t in ("pump", "compressor"):
+            if t in n_ and len(n_[t]) and (n_["res_" + t].mdot_from_kg_per_s.fillna(1.0) <= 1e-9).any():
+                lift0 = True
     for d in diffs[:3]:
-        f.append(Finding("results", "C07.e2e.results.%s.%s" % (d["table"], d["column"]), d))
+        # zero / reverse flow through a pump or compressor: discontinuous lift, the two engines can end in
+        # different solutions (same known finding as the verdict variant)
+        sig = "C07.e2e.verdict.zero_flow_pump" if lift0 else "C07.e2e.results.%s.%s" % (d["table"], d["column"])
+        f.append(Finding("results", sig, d))
     gas = nets[0].fluid.is_gas
     rev = any((nets[0]["res_" + t].mdot_from_kg_per_s < -1e-9).any() for t in ("pipe", "valve", "heat_exchanger")
               if t in nets[0] and len(nets[0][t]))
